@@ -195,6 +195,7 @@ func (sb *seqbag) AppendSeqIdentifier(identifier string, right bool) {
 				seq.name = identifier + seq.name
 			}
 		}
+		sb.reindexNames()
 	}
 }
 
@@ -286,6 +287,18 @@ func (sb *seqbag) CleanNames(namemap map[string]string) {
 		seq.name = inside.ReplaceAllString(seq.name, "-")
 		if namemap != nil {
 			namemap[old] = seq.name
+		}
+	}
+	sb.reindexNames()
+}
+
+// reindexNames rebuilds the name index after sequence names have been edited in place.
+// If several sequences end up with the same name, the first one is indexed.
+func (sb *seqbag) reindexNames() {
+	sb.seqmap = make(map[string]*seq, len(sb.seqs))
+	for _, s := range sb.seqs {
+		if _, ok := sb.seqmap[s.name]; !ok {
+			sb.seqmap[s.name] = s
 		}
 	}
 }
@@ -811,6 +824,7 @@ func (sb *seqbag) Rename(namemap map[string]string) {
 		// 	io.PrintMessage("Sequence " + a.seqs[seq].name + " not present in the map file")
 		// }
 	}
+	sb.reindexNames()
 }
 
 // Shuffle the order of the sequences in the alignment
@@ -838,6 +852,7 @@ func (sb *seqbag) RenameRegexp(regex, replace string, namemap map[string]string)
 		namemap[sb.seqs[seq].name] = newname
 		sb.seqs[seq].name = newname
 	}
+	sb.reindexNames()
 	return nil
 }
 
@@ -1135,6 +1150,7 @@ func (sb *seqbag) TrimNamesAuto(namemap map[string]string, curid *int) (err erro
 		}
 		seq.name = newname
 	}
+	sb.reindexNames()
 	return
 }
 
